@@ -1155,8 +1155,45 @@ func c16WorkingDirectory(c *Ctx) {
 	}
 }
 
+// c16RootIDs: cache-less calls on schemas that live at the same location, one of which declares an absolute `id`
+// (kept $refs are then spelled relative to that id) and the others none: each call answers as it does alone in a
+// fresh process, in every order (skip-schemas and full expansion; all documents exist; outputs are deterministic).
+func c16RootIDs(c *Ctx) {
+	root := "file:///v/r/root.json"
+	w := &refgraph.World{Root: root, Docs: map[string]wire.V{
+		root: wire.MustParse(`{"swagger":"2.0","info":{"title":"t","version":"1"},"paths":{},"definitions":{
+			"withID":{"id":"http://example.com/schemas/root.json","type":"object","properties":{"x":{"$ref":"other.json#/definitions/x"},"n":{"$ref":"node.json"}}},
+			"noID":{"type":"object","properties":{"x":{"$ref":"http://example.com/schemas/other.json#/definitions/x"},"n":{"$ref":"http://example.com/schemas/node.json"}}},
+			"otherID":{"id":"http://example.com/elsewhere/root.json","type":"object","properties":{"x":{"$ref":"http://example.com/schemas/other.json#/definitions/x"}}}}}`),
+		"http://example.com/schemas/other.json": wire.MustParse(`{"definitions":{"x":{"type":"string","description":"x of other"}}}`),
+		"http://example.com/schemas/node.json":  wire.MustParse(`{"type":"object","properties":{"next":{"$ref":"node.json"}}}`)}}
+	names := []string{"withID", "noID", "otherID"}
+	for round := 0; round < c.N(4, 30); round++ {
+		var seq []entryCall
+		for i := 0; i < 6; i++ {
+			seq = append(seq, entryCall{Entry: "schemaWithBase", Path: []string{"definitions", names[c.Intn(3)]}, Skip: c.Coin(0.6)})
+		}
+		for step, call := range seq {
+			hc := histCall{World: worldJSON(w), Call: call}
+			got := runEntry(w, call, nil, tracedLoader(w, &tracer{}, nil))
+			alone, err := isolated(c, hc)
+			c.Count(fmt.Sprint("root-ids", round, step, call), true)
+			c.Hit("root-ids")
+			if err != nil {
+				continue
+			}
+			if got.Out != alone.Out || got.Err != alone.Err || got.Panic != "" {
+				c.Fail(Failure{Kind: "oracle", Sig: "C16:depends-on-history", What: fmt.Sprintf("call %d of a sequence over schemas with and without an id at one location gives %s %s; alone in a fresh process it gives %s %s", step, short(got.Out, 600), got.Err+got.Panic, short(alone.Out, 600), alone.Err),
+					Case: map[string]interface{}{"world": worldJSON(w), "sequence": seq[:step+1]}})
+				return
+			}
+		}
+	}
+}
+
 func runC16(c *Ctx) {
 	c16WorkingDirectory(c)
+	c16RootIDs(c)
 	c.Res.Rule = "random histories (length <= 12 quick / 40 thorough) of public calls made without a caller cache - ExpandSpec (all option combinations), ExpandSchemaWithBasePath, ExpandSchema/ExpandParameterWithRoot/ExpandResponseWithRoot, ResolveRefWithBase, expansions of the two built-in meta-schemas - over a small family of worlds that share document URLs with changed content; oracle: every call's outcome and loader requests (as a set) equal those of the same call made alone in a fresh process, caller options unchanged, built-in meta-schemas resolve without the loader to the embedded assets before and after; non-trivial = call whose world has at least one cross-document reference; distinct by (world, call)"
 	want, msg := builtinSnapshot()
 	if msg != "" {
